@@ -84,6 +84,13 @@ def replay(concrete):
     err = ensure_built()
     if err:
         return True, 'bounded crate failed to build: ' + err
+    if concrete.get('kani_group'):
+        from . import kani
+        r = kani.run(concrete['kani_group'], 'thorough')
+        bad = [f for f in r.get('failures', []) if concrete['harness'] in f['key']]
+        txt = 'kani harness %s in group %s: %s\nrecorded counterexample:\n%s' % (
+            concrete['harness'], concrete['kani_group'], 'STILL FAILS: ' + bad[0]['msg'] if bad else 'now verifies', concrete.get('playback_test', ''))
+        return (not bad), txt
     argv = concrete.get('argv') or []
     if not argv:
         return True, 'no replay arguments recorded'
